@@ -159,6 +159,22 @@ def gen(rng, tier):
                 envs["R"] = {"imports": [("L%d" % n, True)] if chain else [("L%d" % i, True) for i in range(1, n + 1)],
                              "values": ownv + reads}
                 cases.append(G.case_from_graph(envs, "R"))
+    # the ERROR path: an import that cannot be loaded / does not exist / does not parse, listed before, between and after good
+    # imports: the good ones are still folded in listed order and stay readable under imports.<name> (seeded change C01-m:
+    # nothing after the first failing import was evaluated)
+    for bad in ({"kind": "fail"}, None, {"kind": "noparse", "text": "values: [1, 2\n"}):
+        for pos in (0, 1, 2, 3):
+            goods = [("A", True), ("B", True), ("C", False)]
+            listing = goods[:pos] + [("bad", True)] + goods[pos:]
+            envs = {"A": {"imports": [], "values": [("x", ("obj", [("a", ("num", "1"))])), ("fromA", ("str", "a"))]},
+                    "B": {"imports": [], "values": [("x", ("obj", [("b", ("num", "2"))])), ("fromB", ("str", "b"))]},
+                    "C": {"imports": [], "values": [("fromC", ("str", "c"))]},
+                    "R": {"imports": listing, "values": [("own", ("sym", [("name", "imports"), ("name", "C"), ("name", "fromC")])),
+                                                         ("x", ("obj", [("r", ("num", "3"))]))]}}
+            c = G.case_from_graph(envs, "R")
+            if bad is not None:
+                c["envs"]["bad"] = bad
+            cases.append(c)
     # random graphs
     ngraphs = 1500 if thorough else 220
     for _ in range(ngraphs):
